@@ -164,7 +164,7 @@ class C03(Property):
     sys.unraisablehook = lambda *args: None
 
   def budget(self, tier):
-    return (240000, 60.0) if tier == "quick" else (40000000, 780.0)
+    return (480000, 60.0) if tier == "quick" else (40000000, 780.0)
 
   # ---------------------------------------------------------------- workload
   def gen_workload(self, W, index):
